@@ -84,6 +84,28 @@ def run(ctx):
             held = bool(L.held_at(b, bid, 'L_mb', 'write')) or L._last_body_protected(b, bid)
             ctx.ob('C17.L5', b.name, 'read of sync progress (%s) in a function that mutates it happens under the matched-blocks write lock' % k, held, at=t.span)
     ctx.floor('C17.L5', 'sync-progress reads in mutating functions', nread, 4)
+    # .. the same for the functions that only touch the IN-MEMORY half of the progress (the matched-blocks map, recovered from the
+    # stored pending record): a function that takes the write lock at all decides on the stored progress it reads, so those reads
+    # belong inside the lock (seeded C17-6: the recovery timer read the pending record first and locked afterwards; set_scripts
+    # discarded the record in between and the stale hashes were recovered into the map)
+    nread2 = 0
+    for b in P.bodies:
+        if b.promoted is not None or b.name in EXEMPT:
+            continue
+        if not any(r.lock == 'L_mb' and r.mode == 'write' for r in L.regions(b)):
+            continue
+        keys = P.call_keys(b)
+        if any(k in SINKS for _, k, _ in keys):
+            continue          # decided above
+        for bid, k, t in keys:
+            # only the stored pending records (what the map is loaded from); the min filtered number such a function reads is
+            # used to build a REQUEST, whose answer is re-validated under the lock by BlockFiltersProcess
+            if k not in ('Storage::get_earliest_matched_blocks', 'Storage::get_latest_matched_blocks', 'Storage::get_matched_blocks'):
+                continue
+            nread2 += 1
+            held = bool(L.held_at(b, bid, 'L_mb', 'write')) or L._last_body_protected(b, bid)
+            ctx.ob('C17.L5', b.name, 'read of the stored pending matched blocks (%s) in a function that takes the matched-blocks write lock happens under that lock' % k, held, at=t.span)
+    ctx.floor('C17.L5', 'sync-progress reads in functions that lock the matched-blocks map', nread2, 1)
 
     # ---- L2 ------------------------------------------------------------------------------
     acq = L.acquire_sets()
